@@ -65,6 +65,7 @@ fn main() {
         "formula" => formula::run(&gets(&m, "in", ""), &gets(&m, "out", "/tmp/icverif"), getb(&m, "thorough"), geti(&m, "seed", 1) as u64),
         "colattrs" => behreplay::replay_colattrs(&gets(&m, "in", ""), &gets(&m, "out", "/tmp/icverif")),
         "styles" => behreplay::replay_styles(&gets(&m, "in", ""), &gets(&m, "out", "/tmp/icverif")),
+        "tokens" => cases::tokens(&gets(&m, "in", ""), &gets(&m, "out", "/tmp/icverif"), getb(&m, "thorough"), geti(&m, "skip", 0) as usize),
         "runprog" => histrec::run_program(&gets(&m, "in", ""), &gets(&m, "out", "/tmp/icverif")),
         "histbeh" => histrec::replay_behaviours(
             &gets(&m, "in", ""),
